@@ -133,6 +133,23 @@ func cmdGC(args []string) {
 				ins = append(ins, i+1)
 			}
 		}
+		// []byte keys: every key travels through ONE buffer that is refilled for the next key (scanner idiom): what the
+		// tree stores must stay intact when the collector runs and the caller's buffer moves on
+		if setter, ok := d.(interface{ setPassKeyBytes(func([]byte) []byte) }); ok && strings.Contains(d.Name(), "bytes") {
+			scan := make([]byte, 256)
+			n2 := 0
+			setter.setPassKeyBytes(func(k []byte) []byte {
+				n2++
+				if n2%2 == 0 || len(k) > len(scan) {
+					return cloneB(k) // a second key of the same call, or a key too long for the buffer
+				}
+				for i := range scan {
+					scan[i] = byte(0x5a ^ n2)
+				}
+				copy(scan, k)
+				return scan[:len(k)]
+			})
+		}
 		bt := Battery{Search: true, Iter: true, MinMax: true, TopK: true, Range: 6, Prefix: 3}
 		// garbage pressure: allocate and drop while the tree is used
 		var junk [][]byte
@@ -513,7 +530,9 @@ func cmdConc(args []string) {
 	runtime.GOMAXPROCS(*procs)
 	// short fill/drain cycles: every goroutine releases and acquires nodes of every class many times
 	privKinds := []string{"uint8:fan64", "alpha/string:fanb", "int8:fan64", "alpha/bytes:fan64", "uint16:fanb", "alpha/string:fan18",
-		"collation/string/und:han", "compound/u8+u8:tuple", "uint8:fan1", "float32:random", "alpha/bytes:fan2", "uint16:random"}
+		"collation/runes/und:han", "compound/u8+u8:tuple", "collation/runes/und:text", "float32:random", "alpha/bytes:fan2", "uint8:fan1",
+		"collation/string/und:han", "uint16:random"}
+	// ("collation/runes/..." trees are built WITHOUT WithCollator: they use the library's default collator)
 	var wg sync.WaitGroup
 	type res struct{ lines, ops, panics int }
 	results := make([]res, 0)
@@ -772,6 +791,66 @@ func cmdMem(args []string) {
 	tr.fInt("heap", liveHeap())
 	tr.fInt("grown", 0)
 	tr.emit()
+	// bulk phase (not logged call by call): a DENSE tree with many nodes of every class is built and emptied three
+	// times; what stays alive afterwards may not depend on how large the tree once was. Judged as tree 2.
+	bulk := func(fill func(n int), drain func(n int), keep any) {
+		const n = 1 << 17
+		bcp := func(phase string, first bool, done int) {
+			tr.start("Checkpoint")
+			tr.fInt("t", 2)
+			tr.fStr("phase", phase)
+			tr.fBool("first", first)
+			tr.fInt("ops", done)
+			tr.fInt("heap", liveHeap())
+			tr.fInt("grown", 0)
+			tr.emit()
+		}
+		bcp("empty", true, 0)
+		for round := 1; round <= 3; round++ {
+			fill(n)
+			drain(n)
+			bcp("emptied", false, 2*n*round)
+		}
+		runtime.KeepAlive(keep)
+	}
+	switch d.Name() {
+	case "uint32":
+		bt := art.NewUnsignedBinaryTree[uint32, int]()
+		bulk(func(n int) {
+			for i := 0; i < n; i++ {
+				bt.Insert(uint32(i), i)
+			}
+		}, func(n int) {
+			for i := 0; i < n; i++ {
+				bt.Delete(uint32((i * 7919) % n))
+			}
+			for i := 0; i < n; i++ {
+				bt.Delete(uint32(i))
+			}
+		}, bt)
+	case "alpha/string":
+		bt := art.NewAlphaSortedTree[string, int]()
+		bulk(func(n int) {
+			for i := 0; i < n; i++ {
+				bt.Insert(fmt.Sprintf("key/%02x/%04x", i%251, i), i)
+			}
+		}, func(n int) {
+			for i := 0; i < n; i++ {
+				bt.Delete(fmt.Sprintf("key/%02x/%04x", i%251, i))
+			}
+		}, bt)
+	case "uint64":
+		bt := art.NewUnsignedBinaryTree[uint64, int]()
+		bulk(func(n int) {
+			for i := 0; i < n; i++ {
+				bt.Insert(uint64(i)<<8|uint64(i%256), i)
+			}
+		}, func(n int) {
+			for i := 0; i < n; i++ {
+				bt.Delete(uint64(i)<<8 | uint64(i%256))
+			}
+		}, bt)
+	}
 	runtime.KeepAlive(d)
 	tr.Close()
 	writeStats(*stats, Stats{Cmd: "mem", Kind: d.Name(), Lines: tr.Lines, Ops: 3 * *ops, Segments: 1, Digests: len(rec.Digests),
